@@ -3,6 +3,8 @@
 package c02
 
 import (
+	"io/fs"
+
 	"verif/harness/hx"
 	"verif/harness/posix"
 	"verif/harness/sym"
@@ -293,10 +295,11 @@ func run(kind, len0, nh, L, fixed, nops int) {
 	sym.Reach("history-done")
 }
 
-// HDirRead: a directory handle delivers, through Readdirnames(n), each entry
-// exactly once in batches of at most n followed by io.EOF; n <= 0 returns all
-// remaining entries and a nil error.
-func HDirRead(kind, entries, calls int) {
+// HDirRead: a directory handle delivers, through Readdirnames(n) (mode 0),
+// ReadDir(n) (mode 1) or a mix chosen per call (mode 2; the two share one
+// position, as in package os), each entry exactly once in batches of at most n
+// followed by io.EOF; n <= 0 returns all remaining entries and a nil error.
+func HDirRead(kind, entries, calls, mode int) {
 	v := hx.NewBase(kind)
 	hx.Must(v.MkdirAll("/w/d", 0o755))
 	names := []string{"a", "b", "c"}
@@ -305,7 +308,6 @@ func HDirRead(kind, entries, calls int) {
 	}
 	f, err := v.Open("/w/d")
 	hx.Must(err)
-	sym.Label(hx.KindName(kind) + "|Readdirnames")
 	sym.Reach("dir-opened")
 	seen := map[string]int{}
 	total := 0
@@ -313,26 +315,49 @@ func HDirRead(kind, entries, calls int) {
 		n := sym.Int("n")
 		var got []string
 		var rerr error
-		res := sym.Outcome(func() { got, rerr = f.Readdirnames(n) })
-		sym.Assert(!res.Panicked, "C02|"+hx.KindName(kind)+"|Readdirnames|panic|"+res.Class+"|"+res.Site)
+		m := mode
+		if mode == 2 {
+			m = sym.Choose("which", 2)
+		}
+		meth := "Readdirnames"
+		if m == 1 {
+			meth = "ReadDir"
+		}
+		if mode == 2 {
+			meth = "mixed|" + meth
+		}
+		sym.Label(hx.KindName(kind) + "|" + meth)
+		res := sym.Outcome(func() {
+			if m == 0 {
+				got, rerr = f.Readdirnames(n)
+				return
+			}
+			var es []fs.DirEntry
+			es, rerr = f.ReadDir(n)
+			for _, e := range es {
+				got = append(got, e.Name())
+			}
+		})
+		sig := "C02|" + hx.KindName(kind) + "|" + meth
+		sym.Assert(!res.Panicked, sig+"|panic|"+res.Class+"|"+res.Site)
 		code := hx.Code(rerr)
 		remaining := entries - total
 		for _, g := range got {
 			seen[g]++
-			sym.Assert(seen[g] == 1, "C02|"+hx.KindName(kind)+"|Readdirnames|entry-delivered-twice")
+			sym.Assert(seen[g] == 1, sig+"|entry-delivered-twice")
 		}
 		total += len(got)
 		if n <= 0 {
-			sym.Assert(code == 0 && len(got) == remaining, "C02|"+hx.KindName(kind)+"|Readdirnames|n<=0|must-return-all-remaining-with-nil-error")
+			sym.Assert(code == 0 && len(got) == remaining, sig+"|n<=0|must-return-all-remaining-with-nil-error")
 		} else if remaining == 0 {
-			sym.Assert(code == hx.EOF && len(got) == 0, "C02|"+hx.KindName(kind)+"|Readdirnames|at-end|want-EOF|got-"+hx.CodeName(code))
+			sym.Assert(code == hx.EOF && len(got) == 0, sig+"|at-end|want-EOF|got-"+hx.CodeName(code))
 		} else {
 			want := remaining
 			if n < want {
 				want = n
 			}
-			sym.Assert(code == 0 && len(got) == want, "C02|"+hx.KindName(kind)+"|Readdirnames|batch-size")
+			sym.Assert(code == 0 && len(got) == want, sig+"|batch-size")
 		}
-		sym.Assert(total <= entries, "C02|"+hx.KindName(kind)+"|Readdirnames|more-entries-than-exist")
+		sym.Assert(total <= entries, sig+"|more-entries-than-exist")
 	}
 }
